@@ -26,6 +26,7 @@ import (
 // ---- the header chain ------------------------------------------------------------
 
 type chain struct {
+	id      string                 // "m" = main chain, "f" = the alternative chain sharing a prefix with it
 	pattern string                 // 'T' = block with a transaction, 'E' = empty block
 	hdr     []*types.Header        // hdr[i] = header number i (hdr[0] = the local head the sync starts from)
 	txs     [][]*types.Transaction // txs[i] = body of block i
@@ -39,12 +40,14 @@ func mkTx(n uint64) *types.Transaction {
 	return types.NewTransaction(n, common.BytesToAddress([]byte{0xc1, byte(n)}), big.NewInt(int64(n)), 21000, big.NewInt(1), nil)
 }
 
+func mkHeader(n uint64, parent common.Hash, body []*types.Transaction, extra byte) *types.Header {
+	return &types.Header{ParentHash: parent, Number: new(big.Int).SetUint64(n), TxHash: types.DeriveSha(types.Transactions(body)),
+		ReceiptHash: types.EmptyRootHash, Subsidy: new(big.Int), GasRewards: new(big.Int), Time: 1000 + n, Extra: []byte{extra}}
+}
+
 func mkChain(pattern string) *chain {
-	c := &chain{pattern: pattern, num: map[common.Hash]uint64{}}
-	mk := func(n uint64, parent common.Hash, body []*types.Transaction, extra byte) *types.Header {
-		return &types.Header{ParentHash: parent, Number: new(big.Int).SetUint64(n), TxHash: types.DeriveSha(types.Transactions(body)),
-			ReceiptHash: types.EmptyRootHash, Subsidy: new(big.Int), GasRewards: new(big.Int), Time: 1000 + n, Extra: []byte{extra}}
-	}
+	c := &chain{id: "m", pattern: pattern, num: map[common.Hash]uint64{}}
+	mk := mkHeader
 	c.hdr = append(c.hdr, mk(0, common.Hash{}, nil, 0))
 	c.hash = append(c.hash, c.hdr[0].Hash())
 	c.txs = append(c.txs, nil)
@@ -65,6 +68,39 @@ func mkChain(pattern string) *chain {
 	return c
 }
 
+// mkFork builds the chain another master peer offers: blocks 1..shared are the
+// main chain's (same header objects, same bodies), the blocks above are its own
+// (different headers, and - where non-empty - different transactions, so a body
+// of one chain never fits a block above the fork point on the other).
+func mkFork(main *chain, shared uint64, pattern string) *chain {
+	if pattern[:shared] != main.pattern[:shared] {
+		panic("harness: the fork's pattern differs from the main chain's below the fork point")
+	}
+	c := &chain{id: "f", pattern: pattern, num: map[common.Hash]uint64{}, bogus: main.bogus}
+	for i := uint64(0); i <= shared; i++ {
+		c.hdr = append(c.hdr, main.hdr[i])
+		c.hash = append(c.hash, main.hash[i])
+		c.txs = append(c.txs, main.txs[i])
+		c.fork = append(c.fork, main.fork[i])
+		if i > 0 {
+			c.num[main.hash[i]] = i
+		}
+	}
+	for i := shared + 1; i <= uint64(len(pattern)); i++ {
+		var body []*types.Transaction
+		if pattern[i-1] == 'T' {
+			body = []*types.Transaction{mkTx(100 + i)}
+		}
+		h := mkHeader(i, c.hdr[i-1].Hash(), body, 2)
+		c.hdr = append(c.hdr, h)
+		c.txs = append(c.txs, body)
+		c.hash = append(c.hash, h.Hash())
+		c.num[h.Hash()] = i
+		c.fork = append(c.fork, mkHeader(i, common.BytesToHash([]byte{0xba, 0xd1, byte(i)}), body, 3))
+	}
+	return c
+}
+
 // ---- the driver ------------------------------------------------------------------
 
 type stubPeer struct{}
@@ -82,9 +118,12 @@ type peerM struct {
 	honest bool
 	conn   *downloader.VerifPeer
 	// prev: block numbers of the latest request the scheduler has given up on
-	// (expired / discarded by a stale delivery) while the remote side has not
-	// answered it yet - the answer can still arrive.
-	prev []uint64
+	// (expired / discarded by a stale delivery / in flight when its sync cycle
+	// ended) while the remote side has not answered it yet - the answer can still
+	// arrive.  prevCh / prevCyc: the chain and the cycle the request belonged to.
+	prev    []uint64
+	prevCh  *chain
+	prevCyc int
 }
 
 type config struct {
@@ -93,23 +132,63 @@ type config struct {
 	caps    []int // request sizes offered to ReserveBodies
 	cache   int   // blockCacheItems
 	extra   bool  // Revoke / Cancel / adversarial Schedule ops
+
+	// consecutive sync cycles on the same queue and peer set (0/1 = a single cycle)
+	cycles int
+	org1   uint64 // first block the first cycle fetches (0 = 1): local head = org1-1
+	alt    string // pattern of the alternative chain a later cycle's master peer may offer
+	shared uint64 // the alternative chain shares blocks 1..shared with the main chain
+}
+
+func (c config) multi() bool { return c.cycles > 1 }
+
+func (c config) first() uint64 {
+	if c.org1 == 0 {
+		return 1
+	}
+	return c.org1
 }
 
 func (c config) String() string {
-	return fmt.Sprintf("chain=%s peers=%d caps=%v window=%d", c.pattern, c.peers, c.caps, c.cache)
+	s := fmt.Sprintf("chain=%s peers=%d caps=%v window=%d", c.pattern, c.peers, c.caps, c.cache)
+	if c.multi() {
+		s += fmt.Sprintf(" cycles=%d first-origin=%d fork=%s sharing 1..%d extra=%v", c.cycles, c.first(), c.alt, c.shared, c.extra)
+	}
+	return s
+}
+
+// sysName is the system name in replay files.
+func (c config) sysName() string {
+	if c.multi() {
+		return fmt.Sprintf("queue%d-%s-o%d-%s@%d-%dp", c.cycles, c.pattern, c.first(), c.alt, c.shared, c.peers)
+	}
+	return fmt.Sprintf("queue-%s-%dp", c.pattern, c.peers)
+}
+
+// space prefixes the canonical keys: distinct per configuration.
+func (c config) space() string {
+	if c.multi() {
+		return fmt.Sprintf("%s/%d/%s@%d/%d", c.pattern, c.first(), c.alt, c.shared, c.peers)
+	}
+	return c.pattern
 }
 
 type Sys struct {
-	r   *mc.Run
-	cfg config
-	ch  *chain
-	g   *graph
+	r    *mc.Run
+	cfg  config
+	main *chain // the chain of the first cycle
+	alt  *chain // the alternative chain (nil without one)
+	ch   *chain // the chain of the current cycle
+	g    *graph
+
+	cyc int    // number of the current sync cycle (1..)
+	org uint64 // its origin: number of the first block it fetches
 
 	q       *downloader.VerifQueue
 	ps      *downloader.VerifPeerSet
 	peers   []*peerM
 	next    uint64 // number of the next header processHeaders will schedule
-	got     uint64 // blocks handed to the importer so far
+	got     uint64 // blocks handed to the importer so far in this cycle
 	aborted string // non-empty: the sync cycle ended with this error
 	dead    bool
 
@@ -140,7 +219,7 @@ type step struct {
 	dead bool
 }
 
-const origin = 1 // number of the first block to fetch (local head = 0)
+const origin = 1 // number of the first block to fetch (local head = 0): part 2, and the default first cycle of part 1
 
 var (
 	chainMu sync.Mutex
@@ -159,15 +238,39 @@ func chainFor(pattern string) *chain {
 	return c
 }
 
-func newSys(r *mc.Run, cfg config, g *graph) *Sys {
-	return &Sys{r: r, cfg: cfg, ch: chainFor(cfg.pattern), g: g}
+var (
+	forkMu sync.Mutex
+	forks  = map[string]*chain{}
+)
+
+// forkFor returns the (immutable, shared) alternative chain of a configuration.
+func forkFor(cfg config) *chain {
+	if cfg.alt == "" {
+		return nil
+	}
+	main := chainFor(cfg.pattern)
+	k := fmt.Sprintf("%s/%s@%d", cfg.pattern, cfg.alt, cfg.shared)
+	forkMu.Lock()
+	defer forkMu.Unlock()
+	c, ok := forks[k]
+	if !ok {
+		c = mkFork(main, cfg.shared, cfg.alt)
+		forks[k] = c
+	}
+	return c
 }
 
-func (s *Sys) n() uint64 { return uint64(len(s.cfg.pattern)) }
+func newSys(r *mc.Run, cfg config, g *graph) *Sys {
+	return &Sys{r: r, cfg: cfg, main: chainFor(cfg.pattern), alt: forkFor(cfg), g: g}
+}
+
+// n: number of the last block of the chain the current cycle downloads.
+func (s *Sys) n() uint64 { return uint64(len(s.ch.pattern)) }
 
 func (s *Sys) Reset() {
+	s.ch, s.cyc, s.org = s.main, 1, s.cfg.first()
 	s.q = downloader.VerifNewQueue()
-	s.q.Prepare(origin) // syncWithPeer: d.queue.Prepare(origin+1, d.mode)
+	s.q.Prepare(s.org) // syncWithPeer: d.queue.Prepare(origin+1, d.mode)
 	s.ps = downloader.VerifNewPeerSet()
 	s.peers = s.peers[:0]
 	for i := 1; i <= s.cfg.peers; i++ {
@@ -178,7 +281,7 @@ func (s *Sys) Reset() {
 		}
 		s.peers = append(s.peers, p)
 	}
-	s.next, s.got, s.aborted, s.dead, s.viols, s.lost, s.bad = origin, 0, "", false, nil, nil, nil
+	s.next, s.got, s.aborted, s.dead, s.viols, s.lost, s.bad = s.org, 0, "", false, nil, nil, nil
 	s.pos, s.matched = 0, true
 	if s.rootKey == "" {
 		s.refresh()
@@ -225,10 +328,14 @@ func (s *Sys) refresh() downloader.VerifQueueDump {
 	d := s.q.Dump()
 	var b strings.Builder
 	b.Grow(256)
-	fmt.Fprintf(&b, "n%d g%d o%d h%d|Q%s|T%s|", s.next, s.got, d.Offset, s.ch.num[d.Head], nums(d.TaskQueue), nums(d.TaskPool))
+	if s.cfg.multi() {
+		// the cycle: its number, origin and chain (the oracles of a cycle are relative to these)
+		fmt.Fprintf(&b, "y%d s%d k%s ", s.cyc, s.org, s.ch.id)
+	}
+	fmt.Fprintf(&b, "n%d g%d o%d h%d|Q%s|T%s|", s.next, s.got, d.Offset, s.numAny(d.Head), nums(d.TaskQueue), nums(d.TaskPool))
 	done := make([]uint64, 0, len(d.Done))
 	for _, h := range d.Done {
-		done = append(done, s.ch.num[h])
+		done = append(done, s.numAny(h))
 	}
 	sort.Slice(done, func(i, j int) bool { return done[i] < done[j] })
 	fmt.Fprintf(&b, "D%s|C", nums(done))
@@ -265,6 +372,16 @@ func (s *Sys) refresh() downloader.VerifQueueDump {
 			open[n] = true
 		}
 	}
+	// A given-up request of an EARLIER cycle can also concern blocks the current
+	// cycle has not scheduled yet (within a cycle a requested block is always below
+	// s.next); its bodies fit the current cycle's blocks only on the same chain or
+	// below the fork point.
+	fits := func(p *peerM, n uint64) bool {
+		if !open[n] && !(p.prevCyc < s.cyc && n >= s.next && n <= s.n()) {
+			return false
+		}
+		return p.prevCh == s.ch || n <= s.cfg.shared
+	}
 	var blocks []string
 	for _, p := range s.peers {
 		pend := "-"
@@ -288,7 +405,7 @@ func (s *Sys) refresh() downloader.VerifQueueDump {
 			sort.Slice(lack, func(i, j int) bool { return lack[i] < lack[j] })
 			var prev []uint64
 			for _, n := range p.prev {
-				if !open[n] {
+				if !fits(p, n) {
 					n = 0
 				}
 				prev = append(prev, n)
@@ -318,13 +435,33 @@ func (s *Sys) refresh() downloader.VerifQueueDump {
 		b.WriteString("|ABORT " + s.aborted)
 	}
 	s.key = b.String()
-	s.kid = hash64(s.cfg.pattern + "#" + s.key)
+	s.kid = hash64(s.cfg.space() + "#" + s.key)
 	return d
 }
 
-func (s *Sys) Key() string { return s.cfg.pattern + "#" + s.key }
+// numAny: block number of a header hash on the current cycle's chain; 1000+n for
+// a header of the other chain only, 9999 for an unknown one, 0 for the zero hash.
+func (s *Sys) numAny(h common.Hash) uint64 {
+	if h == (common.Hash{}) {
+		return 0
+	}
+	if n, ok := s.ch.num[h]; ok {
+		return n
+	}
+	for _, c := range []*chain{s.main, s.alt} {
+		if c != nil {
+			if n, ok := c.num[h]; ok {
+				return 1000 + n
+			}
+		}
+	}
+	return 9999
+}
 
-func (s *Sys) complete() bool { return s.next > s.n() && s.got == s.n() }
+func (s *Sys) Key() string { return s.cfg.space() + "#" + s.key }
+
+// complete: every header of the cycle's range scheduled, every block of it handed to the importer.
+func (s *Sys) complete() bool { return s.next > s.n() && s.org+s.got == s.n()+1 }
 
 func (s *Sys) flags() nodeFlags {
 	return nodeFlags{complete: s.complete(), exempt: !s.ps.Registered("P1"), aborted: s.aborted != ""}
@@ -332,8 +469,11 @@ func (s *Sys) flags() nodeFlags {
 
 // Enabled lists what the downloader goroutines and the remote peers can do next.
 func (s *Sys) Enabled() []string {
-	if s.dead || s.aborted != "" || s.complete() {
+	if s.dead || s.aborted != "" {
 		return nil
+	}
+	if s.complete() {
+		return s.cycleOps(nil) // the next Synchronise
 	}
 	d := s.q.Dump()
 	var ops []string
@@ -422,11 +562,58 @@ func (s *Sys) Enabled() []string {
 			if s.next < s.n() {
 				ops = append(ops, "sched-gap")
 			}
-			if s.next > origin {
+			if s.next > s.org {
 				ops = append(ops, "sched-fork", "sched-old")
 			}
 			if s.next < s.n() {
 				ops = append(ops, "sched-forktail")
+			}
+		}
+	}
+	return s.cycleOps(ops)
+}
+
+// cycleOps: the sync cycle ends here - completed, or cancelled at this very
+// point (master peer lost, import failure, timeout, Cancel) - and the next
+// Synchronise starts: cycle(o,c) = queue.Close (spawnSync), queue.Reset,
+// peers.Reset (synchronise), Prepare(o) (syncWithPeer), for the new master
+// peer's chain c and the origin o findAncestor yields.
+//
+// Which origins: the local head after a cycle that started at s and handed k
+// blocks to the importer is anywhere in s-1..s-1+k (InsertChain can fail inside
+// a handed-out batch) or above (blocks imported through the block fetcher in
+// between).  On the chain just downloaded the next origin is head+1: every o from
+// s up to one above the point the result window reached (s+k) is offered.  On the
+// other chain the ancestor is at most the fork point: every o in 1..shared+1.
+//
+// A request in flight (or given up and still unanswered) when the cycle ends is
+// answered late, in the next cycle - or its answer is lost: a packet that
+// arrives while no cycle runs is refused (errNoSyncActive) or drained from the
+// delivery channel by the next synchronise.  For the arbitrary peers both is
+// covered by "may answer late or never"; for the honest peer P1 the variant
+// cycle(o,c,lost) drops its outstanding answer.
+func (s *Sys) cycleOps(ops []string) []string {
+	if s.cyc >= s.cfg.cycles || !s.ps.Registered("P1") {
+		return ops
+	}
+	p1 := s.peer("P1")
+	_, p1has := s.q.Dump().Pend["P1"]
+	p1owes := p1has || p1.prev != nil
+	for _, c := range []*chain{s.main, s.alt} {
+		if c == nil {
+			continue
+		}
+		lo, hi := uint64(1), s.cfg.shared+1
+		if c == s.ch {
+			lo, hi = s.org, s.org+s.got+1
+		}
+		if top := uint64(len(c.pattern)); hi > top {
+			hi = top
+		}
+		for o := lo; o <= hi; o++ {
+			ops = append(ops, fmt.Sprintf("cycle(%d,%s)", o, c.id))
+			if p1owes {
+				ops = append(ops, fmt.Sprintf("cycle(%d,%s,lost)", o, c.id))
 			}
 		}
 	}
@@ -474,6 +661,9 @@ func (s *Sys) Apply(op string) string {
 		d := s.refresh()
 		s.checkSlots(d, op)
 		s.checkLost(d, op)
+		if opKind(op) == "cycle" {
+			s.checkCycleStart(d, op)
+		}
 	})
 	if msg != "" {
 		s.dead = true
@@ -482,7 +672,7 @@ func (s *Sys) Apply(op string) string {
 			Sig:    fmt.Sprintf("panic in %s at %s", opKind(op), where),
 			Detail: fmt.Sprintf("%s panicked: %s (at %s)", op, msg, where)})
 		s.key = "PANIC " + op + " after " + s.key
-		s.kid = hash64(s.cfg.pattern + "#" + s.key)
+		s.kid = hash64(s.cfg.space() + "#" + s.key)
 	}
 	s.g.edge(from, s.kid, op, liveMove(op), s.flags())
 	if s.g.isDead(s.kid) {
@@ -531,7 +721,7 @@ func (s *Sys) abort(where string, err error) {
 	s.aborted = where + ": " + err.Error()
 	s.viols = append(s.viols, mc.Violation{
 		Sig:    "sync cycle aborted by the scheduler: " + s.aborted,
-		Detail: "the call returned an error that makes fetchParts end the whole synchronisation"})
+		Detail: fmt.Sprintf("the call returned an error that makes fetchParts end the whole synchronisation (sync cycle %d, blocks %d..%d of chain %s, %d handed to the importer)", s.cyc, s.org, s.n(), s.ch.id, s.got)})
 }
 
 func (s *Sys) bodies(ns []uint64) [][]*types.Transaction {
@@ -544,12 +734,15 @@ func (s *Sys) bodies(ns []uint64) [][]*types.Transaction {
 
 func (s *Sys) apply(op string) string {
 	kind := opKind(op)
-	var a1, a2 string
+	var a1, a2, a3 string
 	if i := strings.Index(op, "("); i > 0 {
 		args := strings.Split(strings.TrimSuffix(op[i+1:], ")"), ",")
 		a1 = args[0]
 		if len(args) > 1 {
 			a2 = args[1]
+		}
+		if len(args) > 2 {
+			a3 = args[2]
 		}
 	}
 	switch kind {
@@ -627,7 +820,7 @@ func (s *Sys) apply(op string) string {
 		d := s.q.Dump()
 		cur, has := d.Pend[p.id]
 		var lists [][]*types.Transaction
-		answersCur := true
+		answersCur, fromEarlierCycle := true, false
 		switch a2 {
 		case "full":
 			lists = s.bodies(cur)
@@ -644,7 +837,10 @@ func (s *Sys) apply(op string) string {
 			lists = s.bodies(cur)
 			lists[1] = s.ch.bogus
 		case "stale":
-			lists = s.bodies(p.prev)
+			for _, n := range p.prev {
+				lists = append(lists, p.prevCh.txs[n])
+			}
+			fromEarlierCycle = p.prevCyc < s.cyc
 			p.prev = nil
 			answersCur = false
 		case "unsol":
@@ -655,10 +851,19 @@ func (s *Sys) apply(op string) string {
 		if has && !answersCur {
 			// the scheduler dropped the pending request on this packet, the remote
 			// side has still to answer it
-			p.prev = cur
+			p.prev, p.prevCh, p.prevCyc = cur, s.ch, s.cyc
 		}
 		ob := fmt.Sprintf("accepted=%d err=%v", accepted, err)
 		s.count("deliver_"+a2+"_"+errClass(err), 1)
+		if fromEarlierCycle {
+			s.count("cycle_late_answer_to_a_request_of_the_previous_cycle_"+errClass(err), 1)
+			if has {
+				s.count("cycle_late_answer_of_the_previous_cycle_meets_a_pending_request", 1)
+			}
+			if accepted > 0 {
+				s.count("cycle_late_answer_of_the_previous_cycle_bodies_accepted", int64(accepted))
+			}
+		}
 		if err == downloader.VerifErrInvalidChain {
 			s.abort("DeliverBodies", err)
 		}
@@ -684,7 +889,7 @@ func (s *Sys) apply(op string) string {
 		}
 		ob := fmt.Sprintf("fails=%d", exp[p.id])
 		if s.ps.Registered(p.id) {
-			p.prev = cur // the remote side may still answer
+			p.prev, p.prevCh, p.prevCyc = cur, s.ch, s.cyc // the remote side may still answer
 			if exp[p.id] > 2 {
 				p.conn.SetBodiesIdle(0)
 				ob += " idle"
@@ -703,6 +908,85 @@ func (s *Sys) apply(op string) string {
 		s.ps.Unregister(a1)
 		return ""
 
+	case "cycle":
+		var o uint64
+		fmt.Sscan(a1, &o)
+		nc := s.main
+		if a2 == "f" {
+			nc = s.alt
+		}
+		d := s.q.Dump()
+		// what the ending cycle leaves behind (vacuity counters)
+		switch reached := s.org + s.got; {
+		case o < reached:
+			s.count("cycle_start_origin_below_the_point_the_previous_cycle_reached", 1)
+		case o == reached:
+			s.count("cycle_start_origin_at_the_point_the_previous_cycle_reached", 1)
+		default:
+			s.count("cycle_start_origin_above_the_point_the_previous_cycle_reached", 1)
+		}
+		if o < s.org {
+			s.count("cycle_start_origin_below_the_previous_cycles_origin", 1)
+		}
+		if nc == s.ch {
+			s.count("cycle_start_on_the_same_chain", 1)
+		} else {
+			s.count("cycle_start_on_the_other_chain", 1)
+		}
+		if s.complete() {
+			s.count("cycle_start_after_a_completed_cycle", 1)
+		} else {
+			s.count("cycle_start_after_a_cancelled_cycle", 1)
+		}
+		inflight, busy, lacking := 0, 0, 0
+		for _, p := range s.peers {
+			if cur, has := d.Pend[p.id]; has {
+				inflight++
+				if s.ps.Registered(p.id) {
+					// the remote side still holds the request: its answer arrives in the next cycle
+					p.prev, p.prevCh, p.prevCyc = cur, s.ch, s.cyc
+				}
+			}
+			if s.ps.Registered(p.id) {
+				if !p.conn.BodiesIdle() {
+					busy++
+				}
+				lacking += len(p.conn.Lacking())
+			}
+			if p.honest && a3 == "lost" {
+				p.prev = nil
+				s.count("cycle_start_with_the_honest_peers_outstanding_answer_lost", 1)
+			}
+		}
+		slots := 0
+		for _, sl := range d.Cache {
+			if !sl.Nil {
+				slots++
+			}
+		}
+		for name, n := range map[string]int{
+			"cycle_start_with_requests_in_flight":              inflight,
+			"cycle_start_with_peers_marked_busy":               busy,
+			"cycle_start_with_lacking_marks":                   lacking,
+			"cycle_start_with_result_slots_in_use":             slots,
+			"cycle_start_with_results_ready_but_not_retrieved": s.q.Processable(),
+			"cycle_start_with_body_tasks_queued":               len(d.TaskQueue),
+			"cycle_start_with_unanswered_given_up_request":     s.unanswered(),
+		} {
+			if n > 0 {
+				s.count(name, 1)
+			}
+		}
+		// spawnSync's epilogue, then synchronise and syncWithPeer of the next cycle
+		s.q.Close()
+		s.q.Reset()
+		s.ps.Reset()
+		s.q.Prepare(o)
+		s.cyc++
+		s.ch, s.org, s.next, s.got = nc, o, o, 0
+		s.lost, s.bad = nil, nil
+		return fmt.Sprintf("cycle %d: blocks %d..%d of chain %s", s.cyc, o, s.n(), nc.id)
+
 	case "revoke":
 		s.q.Revoke(a1)
 		return ""
@@ -713,8 +997,12 @@ func (s *Sys) apply(op string) string {
 		for _, r := range rs {
 			n := r.Header.Number.Uint64()
 			ns = append(ns, n)
-			want := uint64(origin) + s.got
+			want := s.org + s.got
 			switch {
+			case s.cyc > 1 && s.numAny(r.Header.Hash()) >= 1000:
+				s.viols = append(s.viols, mc.Violation{
+					Sig:    "Results returned a block that is not on the chain this sync cycle downloads",
+					Detail: fmt.Sprintf("cycle %d downloads blocks %d..%d of chain %s; Results returned number %d hash %x (batch %s), a header scheduled in an earlier cycle", s.cyc, s.org, s.n(), s.ch.id, n, r.Header.Hash().Bytes()[:4], nums(ns))})
 			case want > s.n() || r.Header.Hash() != s.ch.hash[want]:
 				what := "out of order"
 				if n < want {
@@ -826,7 +1114,7 @@ func (s *Sys) lostTasks(d downloader.VerifQueueDump) []uint64 {
 		}
 	}
 	var lost []uint64
-	for n := uint64(origin) + s.got; n < s.next; n++ {
+	for n := s.org + s.got; n < s.next; n++ {
 		if !at[n] {
 			lost = append(lost, n)
 		}
@@ -849,6 +1137,65 @@ func (s *Sys) checkLost(d downloader.VerifQueueDump, op string) {
 		s.viols = append(s.viols, mc.Violation{
 			Sig:    "dead state: task lost after " + opKind(op) + " (scheduled block left in no pool)",
 			Detail: fmt.Sprintf("after %s block %d is scheduled and not imported, but is neither in the task queue, nor in a pending request, nor complete in its result slot; nothing can fetch it any more\nstate: %s", op, n, s.key)})
+	}
+}
+
+// unanswered: registered peers holding a given-up request they have not answered yet.
+func (s *Sys) unanswered() int {
+	n := 0
+	for _, p := range s.peers {
+		if p.prev != nil && s.ps.Registered(p.id) {
+			n++
+		}
+	}
+	return n
+}
+
+// checkCycleStart: directly after queue.Reset + peers.Reset + Prepare(origin)
+// nothing of the previous cycle is left: no task, no request, no done mark, no
+// result slot, no header head; the result window starts at the new origin; the
+// queue is open again; every peer is idle and lacks nothing.
+func (s *Sys) checkCycleStart(d downloader.VerifQueueDump, op string) {
+	bad := func(what, detail string) {
+		s.viols = append(s.viols, mc.Violation{Sig: "cycle start: " + what, Detail: fmt.Sprintf("after %s (queue.Reset, peers.Reset, Prepare(%d)): %s\nstate: %s", op, s.org, detail, s.key)})
+	}
+	if d.Offset != s.org {
+		bad("the result window does not start at the cycle's origin", fmt.Sprintf("window offset %d, first block to fetch %d", d.Offset, s.org))
+	}
+	if len(d.TaskQueue) > 0 || len(d.TaskPool) > 0 {
+		bad("body tasks of the previous cycle survive", fmt.Sprintf("task queue %s, task pool %s", nums(d.TaskQueue), nums(d.TaskPool)))
+	}
+	if len(d.Pend) > 0 {
+		bad("pending requests of the previous cycle survive", fmt.Sprintf("%d requests", len(d.Pend)))
+	}
+	if len(d.Done) > 0 {
+		bad("done marks of the previous cycle survive", fmt.Sprintf("%d marks", len(d.Done)))
+	}
+	if len(d.Cache) != s.cfg.cache {
+		bad("the result window has the wrong size", fmt.Sprintf("%d slots, want %d", len(d.Cache), s.cfg.cache))
+	}
+	for i, sl := range d.Cache {
+		if !sl.Nil {
+			bad("results of the previous cycle survive", fmt.Sprintf("slot %d holds block %d", i, sl.Number))
+			break
+		}
+	}
+	if d.Head != (common.Hash{}) {
+		bad("the header head of the previous cycle survives", fmt.Sprintf("head = header %d", s.numAny(d.Head)))
+	}
+	if s.q.Closed() {
+		bad("the queue is still closed", "Results would return at once with nothing")
+	}
+	for _, p := range s.peers {
+		if !s.ps.Registered(p.id) {
+			continue
+		}
+		if !p.conn.BodiesIdle() {
+			bad("a peer is still marked busy", p.id+" has nothing in flight in the new cycle")
+		}
+		if l := p.conn.Lacking(); len(l) > 0 {
+			bad("lacking marks of the previous cycle survive", fmt.Sprintf("%s: %d marks", p.id, len(l)))
+		}
 	}
 }
 
